@@ -118,6 +118,20 @@ def run_case(rng, tier, idx):
     if not prescribed and not imperfect:
         c.expect('internal force of the undeformed perfect shell is zero', not f0.any(), 'max %r' % float(np.abs(f0).max()))
     cu = rng.normal(size=n) * sc_free
+    # states with exactly quiet parts (what path-following really visits: axisymmetric pre-buckling states, membrane states)
+    pattern = str(rng.choice(['dense'] * 6 + ['axisymmetric', 'harmonic', 'w_only', 'inplane_only']))
+    is_w = (scale[free] == h)
+    is_ax = free < nax
+    if pattern == 'axisymmetric':
+        cu[~is_ax] = 0.0
+    elif pattern == 'harmonic':
+        cu[is_ax] = 0.0
+    elif pattern == 'w_only':
+        cu[~is_w] = 0.0
+    elif pattern == 'inplane_only':
+        cu[is_w] = 0.0
+    c.tag('pattern:' + pattern)
+    c.desc['state_pattern'] = pattern
     if zero_state:
         cu = np.zeros(n)
     cb = cu.copy()
